@@ -37,6 +37,10 @@ var r *vk.Run
 // alphabet
 
 // a valid bech32 g1 address (the well-known test1 key) for the mention extension
+// hostile attribute payload (entity-encoded so that it survives the extension's own tag parser): breaks out of a
+// double-quoted attribute and carries the canary tag for element-content contexts
+const hp = `&quot; onx=&quot;1&quot;&gt;&lt;xq7&gt;`
+
 const g1addr = "g1jg8mtutu9khhfwc4nxmuhcpftf0pajdhfvsqf5"
 
 var alphabet = []string{
@@ -80,16 +84,16 @@ var alphabet = []string{
 	"<gno-columns-sep/>\n",
 	"</gno-columns>\n",
 	"<gno-form>\n",
-	"<gno-form path=\"p&quot; onx=&quot;1\" exec=\"F&quot;&gt;&lt;script&gt;alert(1)&lt;/script&gt;\">\n",
-	"<gno-input name=\"n&quot; onfocus=&quot;alert(1)\" placeholder=\"&lt;script&gt;alert(1)&lt;/script&gt;\" value=\"v&quot; onx=&quot;1\" />\n",
-	"<gno-input name=\"r\" type=\"radio\" value=\"v&quot;&gt;&lt;xq7&gt;\" description=\"d&quot; onx=&quot;1\" />\n",
-	"<gno-input name=\"t\" type=\"text&quot; onfocus=&quot;alert(1)\" />\n",
+	"<gno-form path=\"p" + hp + "\" exec=\"F" + hp + "\">\n",
+	"<gno-input name=\"n" + hp + "\" placeholder=\"p" + hp + "\" value=\"v" + hp + "\" description=\"d" + hp + "\" />\n",
+	"<gno-input name=\"r" + hp + "\" type=\"radio\" value=\"v" + hp + "\" placeholder=\"p" + hp + "\" description=\"d" + hp + "\" />\n",
+	"<gno-input name=\"t\" type=\"text" + hp + "\" />\n",
 	"<gno-input name=\"--&gt;&lt;script&gt;alert(1)&lt;/script&gt;\" />\n",
-	"<gno-textarea name=\"ta\" value=\"&lt;/textarea&gt;&lt;script&gt;alert(1)&lt;/script&gt;\" description=\"&lt;xq7&gt;\" />\n",
-	"<gno-select name=\"s&quot; onchange=&quot;alert(1)\" value=\"v&lt;xq7 data-xq7=1&gt;\" />\n",
+	"<gno-textarea name=\"ta" + hp + "\" placeholder=\"p" + hp + "\" value=\"&lt;/textarea&gt;&lt;script&gt;alert(1)&lt;/script&gt;\" description=\"d" + hp + "\" />\n",
+	"<gno-select name=\"s" + hp + "\" value=\"v" + hp + "\" description=\"d" + hp + "\" />\n",
 	"</gno-form>\n",
 	"<gno-foreign>\n",
-	"<gno-foreign label=\"l&quot; onx=&quot;1\">\n",
+	"<gno-foreign label=\"l" + hp + "\">\n",
 	"</gno-foreign>\n",
 	"> [!NOTE] t<xq7>\n",
 	"> [!WARNING]- \"><script>alert(1)</script>\n> b\n",
